@@ -58,6 +58,12 @@ M = [
     ("c16_resend_not_charged", "C16", "broker/client.go", "\t\tselect {\n\t\tcase <-c.dequeueTokens:\n\t\tdefault:\n\t\t\t// continue if depleted\n\t\t}\n", ""),
     ("c16_qos0_token_kept", "C16", "broker/client.go", "\t\tif publish.Message.QOS == 0 {\n\t\t\tselect {\n\t\t\tcase c.dequeueTokens <- struct{}{}:", "\t\tif publish.Message.QOS == 0 && false {\n\t\t\tselect {\n\t\t\tcase c.dequeueTokens <- struct{}{}:"),
     ("c16_pubcomp_no_token", "C16", "broker/client.go", "\tcase *packet.Pubcomp:\n\t\terr = c.processPubackAndPubcomp(typedPkt.ID)", "\tcase *packet.Pubcomp:\n\t\terr = c.session.DeletePacket(session.Outgoing, typedPkt.ID)"),
+    # ---- C12
+    ("c12_will_on_disconnect", "C12", "broker/client.go", "\t// clear will\n\tc.will = nil\n\n\t// mark client as cleanly disconnected\n\tatomic.StoreUint32(&c.state, clientDisconnected)\n", "\t// mark client as cleanly disconnected\n"),
+    ("c12_cleanup_twice", "C12 C14", "broker/client.go", "\t\t_ = c.tomb.Wait()\n\t\tc.cleanup()\n", "\t\t_ = c.tomb.Wait()\n\t\tc.cleanup()\n\t\tc.cleanup()\n"),
+    ("c12_will_retain_lost", "C12", "broker/client.go", "\t\tc.will = pkt.Will\n", "\t\tc.will = pkt.Will\n\t\tc.will.Retain = false\n"),
+    ("c12_close_suppresses_will", "C12", "broker/client.go", "func (c *Client) Close() {\n", "func (c *Client) Close() {\n\tatomic.CompareAndSwapUint32(&c.state, clientConnected, clientDisconnected)\n"),
+    ("c12_will_on_timeout_only", "C12", "broker/client.go", "\tif atomic.LoadUint32(&c.state) == clientConnected && c.will != nil {", "\tif atomic.LoadUint32(&c.state) == clientConnected && c.will != nil && c.tomb.Err() != ErrUnexpectedPacket {"),
     # ---- C20
     ("c20_suback_reversed", "C20", "broker/client.go", "\t\tsuback.ReturnCodes[i] = subscription.QOS", "\t\tsuback.ReturnCodes[len(pkt.Subscriptions)-1-i] = subscription.QOS"),
     ("c20_ignore_unexpected", "C20", "broker/client.go", "\tdefault:\n\t\terr = c.die(ClientError, ErrUnexpectedPacket)\n\t}\n\n\t// return eventual error", "\tdefault:\n\t}\n\n\t// return eventual error"),
